@@ -187,6 +187,12 @@ class SolveGroupSwizzlerPartsel(object):
             while maxval > 0:
                 d_width += 1
                 maxval >>= 1
+            
+            if t_range[0] < 0 and d_width < f.width:
+                # The range includes negative values: one more bit is needed to 
+                # tell a negative target from the positive value with the same 
+                # low-order bits
+                d_width += 1
     
             if self.debug > 0:
                 print("d_width: %d" % d_width)                
